@@ -555,6 +555,11 @@ type cellInfo struct {
 	w     epoch
 	hasW  bool
 	reads map[int]epoch
+	// accesses through sync/atomic: never in conflict with each other, but in conflict with
+	// plain accesses that are not ordered by happens-before (as for the Go race detector)
+	aw     epoch
+	hasAW  bool
+	areads map[int]epoch
 }
 
 type locksetState struct {
@@ -643,6 +648,20 @@ func (ls *locksetState) access(m *Machine, cell interface{}, write bool, pos tok
 			report("read", epoch{ci.w.g, ci.w.c, "write at " + ci.w.pos, ci.w.site})
 		}
 	}
+	if ci.hasAW && ci.aw.g != g && ci.aw.c > vc[ci.aw.g] {
+		kind := "read"
+		if write {
+			kind = "write"
+		}
+		report(kind, epoch{ci.aw.g, ci.aw.c, "atomic write at " + ci.aw.pos, ci.aw.site})
+	}
+	if write {
+		for rg, r := range ci.areads {
+			if rg != g && r.c > vc[rg] {
+				report("write", epoch{rg, r.c, "atomic read at " + r.pos, r.site})
+			}
+		}
+	}
 	if write {
 		for rg, r := range ci.reads {
 			if rg != g && r.c > vc[rg] {
@@ -654,6 +673,65 @@ func (ls *locksetState) access(m *Machine, cell interface{}, write bool, pos tok
 		ci.reads = map[int]epoch{}
 	} else {
 		ci.reads[g] = epoch{g, vc[g], m.pos(pos), site}
+	}
+}
+
+// accessAtomic records an access made through sync/atomic: it conflicts with plain accesses of
+// other goroutines that are not ordered before it, never with other atomic accesses.
+func (ls *locksetState) accessAtomic(m *Machine, cell interface{}, write bool) {
+	if m.cur == nil || m.raceExempt > 0 || !m.locksetOn {
+		return
+	}
+	g := m.cur.id
+	vc := m.vcOf(m.cur)
+	ci := ls.cells[cell]
+	if ci == nil {
+		ci = &cellInfo{reads: map[int]epoch{}}
+		ls.cells[cell] = ci
+	}
+	site := m.repoSite(token.NoPos)
+	where := site
+	if where == "" {
+		where = "?"
+	} else {
+		where = shortFile(where)
+	}
+	report := func(kind string, other epoch) {
+		msg := kind + " at " + where + " (goroutine " + fmt.Sprint(g) + ") is not ordered after the " + other.pos + " (goroutine " + fmt.Sprint(other.g) + ")"
+		if !ls.seen[msg] {
+			ls.seen[msg] = true
+			ls.races = append(ls.races, msg)
+		}
+		for _, s := range []string{site, other.site} {
+			dup := s == ""
+			for _, x := range ls.sites {
+				dup = dup || x == s
+			}
+			if !dup && len(ls.sites) < 8 {
+				ls.sites = append(ls.sites, s)
+			}
+		}
+	}
+	kind := "atomic read"
+	if write {
+		kind = "atomic write"
+	}
+	if ci.hasW && ci.w.g != g && ci.w.c > vc[ci.w.g] {
+		report(kind, epoch{ci.w.g, ci.w.c, "write at " + ci.w.pos, ci.w.site})
+	}
+	if write {
+		for rg, r := range ci.reads {
+			if rg != g && r.c > vc[rg] {
+				report(kind, epoch{rg, r.c, "read at " + r.pos, r.site})
+			}
+		}
+		ci.aw = epoch{g, vc[g], where, site}
+		ci.hasAW = true
+	} else {
+		if ci.areads == nil {
+			ci.areads = map[int]epoch{}
+		}
+		ci.areads[g] = epoch{g, vc[g], where, site}
 	}
 }
 
